@@ -341,6 +341,167 @@ theorem inverse_slide_stack1 (parent : Option (Tf ℝ × Motion ℝ)) (lk : Link
     congr 1
     linear_combination qd0 * h00
 
+/-! ## slide joints followed by one hinge -/
+
+/-- **a slide joint followed by a hinge in one stack** (the planar-robot pattern), slide axis `e`
+and hinge axis `a` unit vectors (no orthogonality needed), `|q_slide| ≤ 2`, `|q_hinge| ≤ 1.2`:
+both coordinates and the hinge velocity are recovered for any (unit) parent frame moving in any
+way; the slide velocity when the parent does not rotate.  Here `axis_angle_ang` works on the
+completed frame `(a×b, a, b)` and the hinge angle is its `theta = arccos(cos q)·sign(sin q)`. -/
+theorem inverse_slide_then_hinge (parent : Option (Tf ℝ × Motion ℝ)) (lk : LinkP ℝ)
+    (hp : Q4.normSq (parentOr parent).1.rot = 1)
+    (hlk : Q4.normSq lk.tf.rot = 1) (hjr : lk.joint.rot = ⟨1, 0, 0, 0⟩)
+    (ds dh : DofP ℝ) (a e : V3 ℝ) (hs : ds.motion = ⟨⟨0, 0, 0⟩, e⟩) (hh : dh.motion = ⟨a, ⟨0, 0, 0⟩⟩)
+    (ha : V3.dot a a = 1) (he : V3.dot e e = 1)
+    (q0 q1 qd0 qd1 : ℝ) (hq0 : |q0| ≤ 2) (hq1 : |q1| ≤ 6 / 5) (pidx : Int) :
+    let l : Kin.LinkIn ℝ := ⟨.two, [q0, q1], [qd0, qd1], [ds, dh]⟩
+    let w := w2jLink lk (parentOr parent).1 (parentOr parent).2
+      (fwdLink parent lk l).1 (fwdLink parent lk l).2
+    ∃ v, inverseLink .two w.1 w.2.1 pidx [ds.motion, dh.motion] = some ([q0, q1], [v, qd1])
+      ∧ ((parentOr parent).2.ang = ⟨0, 0, 0⟩ → v = qd0) := by
+  intro l w
+  have hjc := jcalc_slide_hinge ds dh a e q0 q1 qd0 qd1 hs hh ha hq0
+  have hj : Q4.normSq (Kin.jcalc l).1.rot = 1 := by rw [hjc]; exact quatRotAxis_normSq a q1 ha
+  have hw1 : w.1 = _ := worldToJoint_forward_id parent lk l hp hlk hjr hj
+  rw [hjc] at hw1
+  have hw2 : w.2.1.ang = ⟨a.x * qd1, a.y * qd1, a.z * qd1⟩ := by
+    have := worldToJoint_forward_ang parent lk l hp hlk hj
+    rw [hjr, invRotate_one, hjc] at this
+    simp only at this
+    rw [rotate_scale, rotate_axis _ q1 ha] at this; exact this
+  have hx := xDof_slide_hinge a e ⟨e.x * q0, e.y * q0, e.z * q0⟩ q1 w.2.1 pidx ha
+    (by rw [he]; norm_num) hq1
+  refine ⟨V3.dot e w.2.1.vel, ?_, ?_⟩
+  · simp only [inverseLink, List.length_cons, List.length_nil, LinkType.qdWidth, if_true, hs, hh]
+    rw [hw1]
+    simp only
+    rw [hx, hw2]
+    have hq : V3.dot e ⟨e.x * q0, e.y * q0, e.z * q0⟩ = q0 := by
+      simp only [V3.dot] at he ⊢; linear_combination q0 * he
+    have hv : V3.dot a (invRotate ⟨a.x * qd1, a.y * qd1, a.z * qd1⟩
+        (if pidx == -1 then quatRotAxis a q1 else ⟨1, 0, 0, 0⟩)) = qd1 := by
+      split
+      · exact hinge_vel_aux a qd1 ha _ (invRotate_axis _ q1 ha)
+      · exact hinge_vel_aux a qd1 ha _ (invRotate_one _)
+    rw [hq, hv]
+  · intro hrest
+    have hw3 := worldToJoint_forward_vel_partial parent lk l hp hlk hj hrest
+    rw [hjr, invRotate_one, hjc] at hw3
+    rw [hw3]
+    simp only [V3.dot] at he ⊢
+    linear_combination qd0 * he
+
+/-- **two slide joints followed by a hinge in one stack**, slide axes `e0 ⟂ e1` unit, hinge axis `a`
+unit, `|q_slide| ≤ 2`, hinge angle in `(−π, π]`: all three coordinates and the hinge velocity are
+recovered; the slide velocities when the parent does not rotate.  Here `axis_angle_ang` works on
+the completed frame `(b, a×b, a)` and the hinge angle is its `phi`. -/
+theorem inverse_slides_then_hinge (parent : Option (Tf ℝ × Motion ℝ)) (lk : LinkP ℝ)
+    (hp : Q4.normSq (parentOr parent).1.rot = 1)
+    (hlk : Q4.normSq lk.tf.rot = 1) (hjr : lk.joint.rot = ⟨1, 0, 0, 0⟩)
+    (d0 d1 dh : DofP ℝ) (a e0 e1 : V3 ℝ) (hd0 : d0.motion = ⟨⟨0, 0, 0⟩, e0⟩)
+    (hd1 : d1.motion = ⟨⟨0, 0, 0⟩, e1⟩) (hh : dh.motion = ⟨a, ⟨0, 0, 0⟩⟩)
+    (ha : V3.dot a a = 1) (h00 : V3.dot e0 e0 = 1) (h11 : V3.dot e1 e1 = 1) (h01 : V3.dot e0 e1 = 0)
+    (q0 q1 q2 qd0 qd1 qd2 : ℝ) (hq0 : |q0| ≤ 2) (hq1 : |q1| ≤ 2)
+    (hq2 : -Real.pi < q2) (hq2' : q2 ≤ Real.pi) (pidx : Int) :
+    let l : Kin.LinkIn ℝ := ⟨.three, [q0, q1, q2], [qd0, qd1, qd2], [d0, d1, dh]⟩
+    let w := w2jLink lk (parentOr parent).1 (parentOr parent).2
+      (fwdLink parent lk l).1 (fwdLink parent lk l).2
+    ∃ v0 v1, inverseLink .three w.1 w.2.1 pidx [d0.motion, d1.motion, dh.motion]
+        = some ([q0, q1, q2], [v0, v1, qd2])
+      ∧ ((parentOr parent).2.ang = ⟨0, 0, 0⟩ → v0 = qd0 ∧ v1 = qd1) := by
+  intro l w
+  have hjc := jcalc_slide_slide_hinge d0 d1 dh a e0 e1 q0 q1 q2 qd0 qd1 qd2 hd0 hd1 hh ha hq0 hq1
+  have hj : Q4.normSq (Kin.jcalc l).1.rot = 1 := by rw [hjc]; exact quatRotAxis_normSq a q2 ha
+  have hw1 : w.1 = _ := worldToJoint_forward_id parent lk l hp hlk hjr hj
+  rw [hjc] at hw1
+  have hw2 : w.2.1.ang = ⟨a.x * qd2, a.y * qd2, a.z * qd2⟩ := by
+    have := worldToJoint_forward_ang parent lk l hp hlk hj
+    rw [hjr, invRotate_one, hjc] at this
+    simp only at this
+    rw [rotate_scale, rotate_axis _ q2 ha] at this; exact this
+  have hx := xDof_slide_slide_hinge a e0 e1
+    ⟨e0.x * q0 + e1.x * q1, e0.y * q0 + e1.y * q1, e0.z * q0 + e1.z * q1⟩ q2 w.2.1 pidx ha
+    (by rw [h00]; norm_num) hq2 hq2'
+  refine ⟨V3.dot e0 w.2.1.vel, V3.dot e1 w.2.1.vel, ?_, ?_⟩
+  · simp only [inverseLink, List.length_cons, List.length_nil, LinkType.qdWidth, if_true, hd0, hd1, hh]
+    rw [hw1]
+    simp only
+    rw [hx, hw2]
+    have hqa : V3.dot e0 ⟨e0.x * q0 + e1.x * q1, e0.y * q0 + e1.y * q1, e0.z * q0 + e1.z * q1⟩ = q0 := by
+      simp only [V3.dot] at h00 h01 ⊢; linear_combination q0 * h00 + q1 * h01
+    have hqb : V3.dot e1 ⟨e0.x * q0 + e1.x * q1, e0.y * q0 + e1.y * q1, e0.z * q0 + e1.z * q1⟩ = q1 := by
+      simp only [V3.dot] at h11 h01 ⊢; linear_combination q0 * h01 + q1 * h11
+    have hv : V3.dot a (invRotate ⟨a.x * qd2, a.y * qd2, a.z * qd2⟩
+        (if pidx == -1 then quatRotAxis a q2 else ⟨1, 0, 0, 0⟩)) = qd2 := by
+      split
+      · exact hinge_vel_aux a qd2 ha _ (invRotate_axis _ q2 ha)
+      · exact hinge_vel_aux a qd2 ha _ (invRotate_one _)
+    rw [hqa, hqb, hv]
+  · intro hrest
+    have hw3 := worldToJoint_forward_vel_partial parent lk l hp hlk hj hrest
+    rw [hjr, invRotate_one, hjc] at hw3
+    rw [hw3]
+    simp only [V3.dot] at h00 h11 h01 ⊢
+    constructor
+    · linear_combination qd0 * h00 + qd1 * h01
+    · linear_combination qd0 * h01 + qd1 * h11
+
+/-- non-vacuity / instance: slide along the unit axis `(0, 3/5, 4/5)` then hinge about `(2/3, −1/3, 2/3)`
+(not orthogonal to it) on the example link under the moving parent -/
+example :
+    let ds := exDof ⟨0, 0, 0⟩ ⟨0, 3 / 5, 4 / 5⟩
+    let dh := exDof ⟨2 / 3, -1 / 3, 2 / 3⟩ ⟨0, 0, 0⟩
+    let l : Kin.LinkIn ℝ := ⟨.two, [-3 / 2, 6 / 5], [1, -1], [ds, dh]⟩
+    let w := w2jLink exLk exParent.1 exParent.2
+      (fwdLink (some exParent) exLk l).1 (fwdLink (some exParent) exLk l).2
+    ∃ v, inverseLink .two w.1 w.2.1 0 [ds.motion, dh.motion] = some ([-3 / 2, 6 / 5], [v, -1]) := by
+  intro ds dh l w
+  obtain ⟨v, hv, _⟩ := inverse_slide_then_hinge (some exParent) exLk
+    (by simp [parentOr, exParent, Q4.normSq]) (by simp [exLk, Q4.normSq]; norm_num) rfl
+    ds dh ⟨2 / 3, -1 / 3, 2 / 3⟩ ⟨0, 3 / 5, 4 / 5⟩ rfl rfl (by simp [V3.dot]; norm_num)
+    (by simp [V3.dot]; norm_num) (-3 / 2) (6 / 5) 1 (-1) (by rw [abs_le]; constructor <;> norm_num)
+    (by rw [abs_le]; constructor <;> norm_num) 0
+  exact ⟨v, hv⟩
+
+/-! ## stacks of two and three hinges (Euler-angle extraction `x–y'–z''`): NOT proved here
+
+The full statements are kept below (they type-check when un-commented).  What is missing: the
+evaluation of `axis_angle_ang` on the product rotation `R(a₀,q₀)·R(a₁,q₁)(·R(a₂,q₂))` — line of
+nodes `cos q₁·(cos q₀ a₁ + sin q₀ a₀×a₁)`, `theta = arccos(cos q₁)·sign(sin q₁)`, and for three hinges
+`phi` with the parity `a₂ = ±a₀×a₁`.  Until then these stacks are covered by the correspondence
+(legs a2/a3: model = implementation on two- and three-hinge links) and by the Spec evaluation (leg b: the round
+trip itself on every generated `hh`/`hhh` link, either handedness).  Velocities of stacked hinges are
+outside the property (known finding K1).
+
+```
+def inverse_two_hingesStmt : Prop :=
+  ∀ (parent : Option (Tf ℝ × Motion ℝ)) (lk : LinkP ℝ) (d0 d1 : DofP ℝ) (a0 a1 : V3 ℝ)
+    (q0 q1 qd0 qd1 : ℝ) (pidx : Int),
+    Q4.normSq (parentOr parent).1.rot = 1 → Q4.normSq lk.tf.rot = 1 → lk.joint.rot = ⟨1, 0, 0, 0⟩ →
+    d0.motion = ⟨a0, ⟨0, 0, 0⟩⟩ → d1.motion = ⟨a1, ⟨0, 0, 0⟩⟩ →
+    V3.dot a0 a0 = 1 → V3.dot a1 a1 = 1 → V3.dot a0 a1 = 0 →
+    |q0| ≤ 6 / 5 → |q1| ≤ 6 / 5 →
+    let l : Kin.LinkIn ℝ := ⟨.two, [q0, q1], [qd0, qd1], [d0, d1]⟩
+    let w := w2jLink lk (parentOr parent).1 (parentOr parent).2
+      (fwdLink parent lk l).1 (fwdLink parent lk l).2
+    ∃ qd', inverseLink .two w.1 w.2.1 pidx [d0.motion, d1.motion] = some ([q0, q1], qd')
+
+def inverse_three_hingesStmt : Prop :=
+  ∀ (parent : Option (Tf ℝ × Motion ℝ)) (lk : LinkP ℝ) (d0 d1 d2 : DofP ℝ) (a0 a1 a2 : V3 ℝ)
+    (q0 q1 q2 qd0 qd1 qd2 : ℝ) (pidx : Int),
+    Q4.normSq (parentOr parent).1.rot = 1 → Q4.normSq lk.tf.rot = 1 → lk.joint.rot = ⟨1, 0, 0, 0⟩ →
+    d0.motion = ⟨a0, ⟨0, 0, 0⟩⟩ → d1.motion = ⟨a1, ⟨0, 0, 0⟩⟩ → d2.motion = ⟨a2, ⟨0, 0, 0⟩⟩ →
+    V3.dot a0 a0 = 1 → V3.dot a1 a1 = 1 → V3.dot a0 a1 = 0 →
+    (a2 = V3.cross a0 a1 ∨ a2 = -V3.cross a0 a1) →
+    |q0| ≤ 6 / 5 → |q1| ≤ 6 / 5 → |q2| ≤ 6 / 5 →
+    let l : Kin.LinkIn ℝ := ⟨.three, [q0, q1, q2], [qd0, qd1, qd2], [d0, d1, d2]⟩
+    let w := w2jLink lk (parentOr parent).1 (parentOr parent).2
+      (fwdLink parent lk l).1 (fwdLink parent lk l).2
+    ∃ qd', inverseLink .three w.1 w.2.1 pidx [d0.motion, d1.motion, d2.motion]
+      = some ([q0, q1, q2], qd')
+```
+-/
+
 /-! ## what the pipelines report -/
 
 /-- **`q, qd` reported by `spring.pipeline.step` / `positional.pipeline.step` are the inverse image of
